@@ -6,6 +6,6 @@ SCR="$(mktemp -d /tmp/scratch.XXXXXX)"
 rsync -a --exclude .git --exclude docs/images /repo/ "$SCR/"
 ( cd "$SCR" && patch -p1 -s < "$PATCH" ) || { echo "patch failed"; rm -rf "$SCR"; exit 2; }
 for id in "$@"; do
-  VERIF_REPO="$SCR" VERIF_NO_EVIDENCE=1 VERIF_REPLAY_DIR="$SCR/replays" ${TIER:+VERIF_TIER=$TIER} /verif/check "$id" 2>&1 | grep -E "VIOLATION|KNOWN-FINDING|HARNESS|tier=" | cut -c1-300
+  VERIF_REPO="$SCR" VERIF_NO_EVIDENCE=1 VERIF_REPLAY_DIR="$SCR/replays" ${TIER:+VERIF_TIER=$TIER} /verif/check "$id" 2>&1 | grep -E "VIOLATION|KNOWN-FINDING|HARNESS|tier=|shards\)" | cut -c1-300
 done
 rm -rf "$SCR"
